@@ -109,6 +109,9 @@ def run(tier, seed):
     for k in (0, 1, 15, 16, 17, 200):
         for c in (0, 5):
             cases.append(Case('kmac_ctor_k%d_c%d' % (k, c), 'hash', 'zzC09_kmac_ctor', [k, c, 3 if k != 200 else 170], opts={'setup': HS}))
+    # every key length (the key block is padded to a multiple of the rate: boundary effects at 164, 332, 500 ...)
+    for k in range(18, 1201 if thorough else 521):
+        cases.append(Case('kmac_keylen_%d' % k, 'hash', 'zzC09_kmac_keylen', [k], opts={'setup': HS}))
     for n in (0, 1, 103, 104, 135, 136, 137, 300):
         cases.append(Case('hashers_%d' % n, 'hash', 'zzC09_hashers', [n], opts={'setup': HS}))
     # random package (harnesses of C14 / C15)
